@@ -127,3 +127,17 @@ Example C16_nonvacuous_upper :
   map o_kind (souts (spec_init HVam 1 100) ex_ops_upper) = [ROk; ROk; ROk; RRefused; ROk; RRefused; ROk; ROk] /\
   map o_off (souts (spec_init HVam 1 100) ex_ops_upper) = [0; 64; 32; 0; 0; 0; 0; 32].
 Proof. vm_compute. auto. Qed.
+
+(* ---------------------------------------------------------------- second tie: translated code
+   GenLeaf.v is REGENERATED from /repo's Go source on every run (tools/go2coq, explicit Go integer
+   semantics GoSem.v); the theorems below say that the generated definitions equal the model's
+   functions on the stated ranges, so an edit of these Go functions breaks an obligation of this file. *)
+From Arsenal Require GoSem GenLeaf GenLeafProofs2.
+
+Theorem C16_code_shouldCompactFirstVector : forall l,
+  -2 ^ 59 <= Linear.l_null_begin l <= 2 ^ 59 -> -2 ^ 59 <= Linear.l_null_middle l <= 2 ^ 59 ->
+  Util.zlen (Linear.first l) <= 2 ^ 59 ->
+  GenLeaf.shouldCompactFirstVector (Linear.l_null_begin l) (Linear.l_null_middle l) (Util.zlen (Linear.first l))
+  = Linear.should_compact l.
+Proof. exact GenLeafProofs2.gen_shouldCompactFirstVector_eq. Qed.
+Print Assumptions C16_code_shouldCompactFirstVector.
